@@ -22,14 +22,25 @@ def make(rng, sid):
         s.file(b"/etc/one.conf", b"a=1\n[S]\nb=2\n")
         pol = rng.choice(["cb:all", "cb:rej:0", "cb:suf:" + h(b"one.conf"), "cb:suf:" + h(b"other")])
         s.add("LOGOPEN", 1)
-        s.add("RF", 0, h(b"/etc/one.conf"), h(b"="), h(b"#"), pol)
+        name = b"/etc/one.conf"
+        if rng.random() < 0.4:     # relative name: the callback must be shown the name as the caller gave it
+            s.add("CD", h(b"/etc"))
+            name = rng.choice([b"one.conf", b"./one.conf", b"../etc/one.conf"])
+        s.add("RF", 0, h(name), h(b"="), h(b"#"), pol)
         s.add("RAW", 0)
         s.meta["policy"] = pol
-        s.meta["consulted"] = [b"/etc/one.conf"]
+        s.meta["consulted"] = [name]
         return s
     p = gen_tree.shape_params(rng, shape)
     tg = gen_tree.Tagger()
     t = gen_tree.random_tree(rng, p["dirs"], p["name"], p["dsfx"], p["postfixes"], tg)
+    relative = False
+    if shape == "readdirs" and rng.random() < 0.4 and all(d.startswith(b"/") and len(d) > 1 for d in p["dirs"]):
+        # relative directory arguments (after chdir to /): the callback is shown the consulted names as built from them
+        relative = True
+        _, u, e, nm, sfx = p["call"]
+        p["call"] = ("RD", u[1:], e[1:], nm, sfx)
+        p["dirs"] = [u[1:], e[1:]]
     tv = trees.TreeView(t)
     main, drops = trees.consulted(tv, p["dirs"], p["name"], p["dsfx"], p["postfixes"])
     files = ([main] if main else []) + drops
@@ -46,6 +57,9 @@ def make(rng, sid):
         entry = "RH"
     s = Scenario(sid, {"p": p, "tree": t, "policy": pol, "consulted": files, "entry": entry or p["call"][0], "shape": shape})
     t.emit(s)
+    if relative:
+        s.add("CD", h(b"/"))
+        s.meta["relative"] = True
     s.add("LOGOPEN", 1)
     gen_tree.emit_read(s, p, 0, cb=pol, entry=entry)
     if entry == "RH":
@@ -106,12 +120,21 @@ def oracle(s, lines):
     # every open is preceded by an accepting callback call for that path, nothing is opened after a rejection
     seen = set()
     k = 0
+    pending = False
+    cwd = next((unh(x.split()[1]) for x in s.lines if x.startswith("CD ")), None)
     for l in ev:
         pth = unh(l.split()[1])
         if l.startswith("cb "):
             if not rejected(m["policy"], k, pth):
                 seen.add(pth)
+                pending = cwd is not None and not pth.startswith(b"/")
+            else:
+                pending = False
             k += 1
+        elif pending:
+            # relative name: the callback is shown the name as given, the open uses what `realpath` makes of it (links, `.`
+            # and `..` resolved); the open must be the event right behind the accepting call
+            pending = False
         else:
             if pth not in seen:
                 return "file %r opened without an accepting callback call" % pth
